@@ -5,12 +5,13 @@ from checks.durable_check import replay_execution, run_durable
 
 def run(ctx):
     run_durable(ctx,
-                model=["s02_amo_retry_caughtfail", "s06_amo_three_attempts", "s14_amo_exhaust", "s16_wait_wait"],
-                programs=["s02_amo_retry_caughtfail", "s06_amo_three_attempts", "s14_amo_exhaust", "s16_wait_wait", "s08_large_child"],
+                model=["s02_amo_retry_caughtfail", "s06_amo_three_attempts", "s14_amo_exhaust", "s16_wait_wait", "s21_step_then_amo"],
+                programs=["s02_amo_retry_caughtfail", "s06_amo_three_attempts", "s14_amo_exhaust", "s16_wait_wait", "s08_large_child",
+                          "s21_step_then_amo"],
                 oracle_fns=[oracles.c04],
                 gen_kw={"kinds": ["step", "step", "wait", "child"]},
                 scen_kw={"crash": 0.8, "paging": 0.3},
-                sweep=["s06_amo_three_attempts", "s02_amo_retry_caughtfail"],
+                sweep=["s06_amo_three_attempts", "s21_step_then_amo", "s16_wait_wait"],
                 extra_rule="Fault enumeration: every invocation of the AMO programs is killed at (a sample of) every scheduling step. "
                            "Oracle: per (step, attempt) at most one function entry; at entry the backend record is STARTED.")
 
